@@ -1,7 +1,7 @@
 /-
 Helper lemmas for C11: installer-level confinement.  `Inv D fs0 s` says that every key that is not under
-DESTDIR's key `D` is bound as in the initial tree `fs0`, or is a strict ancestor of `D` that was absent or a
-directory and is a directory now.  Every installer function preserves it.
+DESTDIR's key `D` is bound as in the initial tree `fs0`, or is a strict ancestor of `D` that was absent and is a
+directory now.  Every installer function preserves it.
 -/
 import MesonModel.Install.PathLemmas
 
@@ -40,7 +40,7 @@ def Cmp (D k : Key) : Prop := D <+: k ∨ k <+: D
 def Inv (D : Key) (fs0 : FS) (s : St) : Prop :=
   ∀ k, ¬ D <+: k →
     s.fs.get k = fs0.get k ∨
-    (k <+: D ∧ (fs0.look k = none ∨ ∃ m', fs0.look k = some (.dir m')) ∧ ∃ m, s.fs.get k = some (.dir m))
+    (k <+: D ∧ fs0.look k = none ∧ ∃ m, s.fs.get k = some (.dir m))
 
 theorem Inv_of_fs {D : Key} {fs0 : FS} {s s' : St} (h : s'.fs = s.fs) (hI : Inv D fs0 s) : Inv D fs0 s' := by
   intro k hk; rw [h]; exact hI k hk
@@ -65,9 +65,9 @@ theorem Inv_fail {D : Key} {fs0 : FS} {s : St} (e : Err) (hI : Inv D fs0 s) : In
 theorem Inv_logLine {D : Key} {fs0 : FS} {s : St} (l : Str) (hI : Inv D fs0 s) : Inv D fs0 (s.logLine l) :=
   Inv_of_fs rfl hI
 
-/-- writing a directory at a strict ancestor of `D` that is absent (or a directory) keeps the invariant -/
+/-- creating a directory at an absent strict ancestor of `D` keeps the invariant -/
 theorem Inv_write_dir_anc {D : Key} {fs0 : FS} {s : St} (k0 : Key) (m : Nat) (hpre : k0 <+: D)
-    (hcur : s.fs.look k0 = none ∨ ∃ m', s.fs.look k0 = some (.dir m')) (hI : Inv D fs0 s) :
+    (hcur : s.fs.look k0 = none) (hI : Inv D fs0 s) :
     Inv D fs0 (s.write k0 (.dir m)) := by
   intro k hk
   by_cases hne : k = k0
@@ -75,7 +75,7 @@ theorem Inv_write_dir_anc {D : Key} {fs0 : FS} {s : St} (k0 : Key) (m : Nat) (hp
     right
     refine ⟨hpre, ?_, m, by simp [St.write, get_set_same]⟩
     by_cases hroot : k = []
-    · right; exact ⟨0o755, by simp [FS.look, hroot]⟩
+    · simp [FS.look, hroot] at hcur
     · simp only [FS.look, hroot, if_false] at hcur ⊢
       rcases hI k hk with h1 | ⟨_, h2, _⟩
       · rw [← h1]; exact hcur
@@ -110,7 +110,6 @@ theorem Inv_mkdirsGo {D : Key} {fs0 : FS} (mode : Nat) (ok : Bool) (rest : List 
         rcases prefix_cmp hk hc with h | h
         · exact Inv_write _ _ h hI
         · apply Inv_write_dir_anc _ _ h _ hI
-          left
           simpa using hlook
     · split
       · exact Inv_fail _ hI
@@ -150,20 +149,6 @@ theorem Inv_chmodNode (k : Key) (m : Nat) (s : St) (h : D <+: k) (hI : Inv D fs0
   · exact hI
   · exact Inv_write _ _ h hI
   · exact Inv_write _ _ h hI
-
-/-- `chmod` of a directory at a key comparable with `D` -/
-theorem Inv_chmodNode_dir (k : Key) (m : Nat) (s : St) (hc : Cmp D k) (hd : isDirF s k = true) (hI : Inv D fs0 s) :
-    Inv D fs0 (chmodNode k m s) := by
-  rcases hc with h | h
-  · exact Inv_chmodNode k m s h hI
-  · unfold chmodNode
-    split
-    · exact Inv_fail _ hI
-    · exact hI
-    · rename_i m' hl
-      exact Inv_write_dir_anc _ _ h (Or.inr ⟨m', hl⟩) hI
-    · rename_i hl
-      simp [isDirF, FS.follow, hl] at hd
 
 theorem Inv_sanitize (k : Key) (s : St) (h : D <+: k) (hI : Inv D fs0 s) : Inv D fs0 (sanitize cfg k s) := by
   unfold sanitize
